@@ -689,7 +689,7 @@ Qed.
 
 (* ---------- the source cannot be opened ---------- *)
 
-Lemma sync_file_open_fails o w dst src off e fr :
+Lemma sync_file_open_fails o w dst src off fr :
   benign o ->
   tr_ok (w_tr w) = true ->
   (exists rest, dst = ch_slash :: rest) ->
@@ -699,12 +699,12 @@ Lemma sync_file_open_fails o w dst src off e fr :
   parents_exist (w_fs w) ->
   (lookup (w_fs w) src <> None \/ ~ In src (parents_of dst)) ->
   (forall f1, lookup f1 src = lookup (w_fs w) src -> fs_files f1 = fs_files (w_fs w) ->
-              fs_open_read src f1 = inr e) ->
-  match e with
-  | ENOENT => throw_static M_src_missing
-  | EACCES => throw_static M_src_denied
-  | _ => throw_errno e
-  end = throw fr ->
+              exists e, fs_open_read src f1 = inr e /\
+                match e with
+                | ENOENT | ENOTDIR => throw_static M_src_missing
+                | EACCES => throw_static M_src_denied
+                | _ => throw_errno e
+                end = throw fr) ->
   exists w',
     sync_file dst src off o w = (Some 0, w') /\
     w_tr w' = tr_push fr (w_tr w) /\
@@ -713,7 +713,7 @@ Lemma sync_file_open_fails o w dst src off e fr :
     keys_nodup (w_fs w') /\ parents_exist (w_fs w') /\
     abandoned dst (w_fs w) (w_fs w').
 Proof.
-  intros H Htr [rest Habs] Hpar Hnd Hpe Hsrc Hopen Hthrow.
+  intros H Htr [rest Habs] Hpar Hnd Hpe Hsrc Hopen.
   destruct (create_parents_spec o w dst rest H Htr Habs Hpar Hnd)
     as [w1 [Ecp [T1 [F1 [N1 [I1 [O1 [P1 [L1 Hnd1]]]]]]]]].
   unfold sync_file, when_ok.
@@ -722,10 +722,10 @@ Proof.
   rewrite (bind_some _ _ _ _ _ _ (is_ok_eq o w1)). rewrite T1, Htr. cbn [negb].
   destruct (k_open_read_any o w1 src H) as [w2 [E2 [F2 T2]]].
   rewrite (bind_some _ _ _ _ _ _ E2).
-  rewrite (Hopen (w_fs w1)).
-  2:{ destruct Hsrc as [Hs|Hs]; [apply P1; exact Hs | apply O1; exact Hs]. }
-  2:{ exact F1. }
-  cbv beta iota. rewrite Hthrow.
+  destruct (Hopen (w_fs w1)) as [e [Ho Hthrow]].
+  { destruct Hsrc as [Hs|Hs]; [apply P1; exact Hs | apply O1; exact Hs]. }
+  { exact F1. }
+  rewrite Ho. cbv beta iota. rewrite Hthrow.
   destruct (throw_spec fr o w2) as [w3 [E3 [F3 T3]]].
   rewrite (bind_some _ _ _ _ _ _ E3).
   destruct (abandon_cleanup o dst rest (w_fs w) w3 H Habs Hpe Hpar)
@@ -765,11 +765,12 @@ Theorem sync_file_src_missing o w dst src off :
     abandoned dst (w_fs w) (w_fs w').
 Proof.
   intros H Htr Habs Hpar Hnd Hpe Hsrc Hnin.
-  destruct (sync_file_open_fails o w dst src off ENOENT (FStatic M_src_missing)
+  destruct (sync_file_open_fails o w dst src off (FStatic M_src_missing)
               H Htr Habs Hpar Hnd Hpe (or_intror Hnin))
     as [w' [E [T [FF [NN [ND [PE AB]]]]]]].
-  { intros f1 Hl _. unfold fs_open_read. rewrite Hl, Hsrc. reflexivity. }
-  { reflexivity. }
+  { intros f1 Hl _. exists (missing_errno src f1). split.
+    - unfold fs_open_read. rewrite Hl, Hsrc. reflexivity.
+    - unfold missing_errno. destruct (anc_not_dir (length src) f1 src); reflexivity. }
   exists w'. split; [exact E|]. split; [exact T|]. split; [exact FF|]. split; [exact NN|].
   split; [apply get_file_ext; exact FF|]. split; [exact ND|]. split; [exact PE | exact AB].
 Qed.
@@ -795,13 +796,12 @@ Theorem sync_file_src_denied o w dst src off i :
     abandoned dst (w_fs w) (w_fs w').
 Proof.
   intros H Htr Habs Hpar Hnd Hpe Hsrc Hrd.
-  destruct (sync_file_open_fails o w dst src off EACCES (FStatic M_src_denied)
+  destruct (sync_file_open_fails o w dst src off (FStatic M_src_denied)
               H Htr Habs Hpar Hnd Hpe)
     as [w' [E [T [FF [NN [ND [PE AB]]]]]]].
   { left. congruence. }
-  { intros f1 Hl Hf. unfold fs_open_read. rewrite Hl, Hsrc.
+  { intros f1 Hl Hf. exists EACCES. split; [|reflexivity]. unfold fs_open_read. rewrite Hl, Hsrc.
     rewrite (get_file_ext _ _ Hf i), Hrd. reflexivity. }
-  { reflexivity. }
   exists w'. split; [exact E|]. split; [exact T|]. split; [exact FF|]. split; [exact NN|].
   split; [apply get_file_ext; exact FF|]. split; [exact ND|]. split; [exact PE | exact AB].
 Qed.
